@@ -2,7 +2,7 @@
 //! Generator: abstract page trees -> real `Document` + protocol `pages` request.
 //! Oracle: leaves of the abstract tree (independent DFS), numbering 1..n, only-Page ids.
 use crate::codec::*;
-use crate::ctx::{guard, Ctx};
+use crate::ctx::Ctx;
 use crate::rng::Rng;
 use lopdf::{Dictionary, Document, Object, ObjectId};
 use serde_json::json;
@@ -158,12 +158,39 @@ fn mutate(r: &mut Rng, doc: &mut Document, c: &mut Ctx) {
     }
 }
 
-fn run_real(doc: &Document) -> Result<(Vec<ObjectId>, Vec<(u32, ObjectId)>), (String, String)> {
-    guard(|| {
-        let it: Vec<ObjectId> = doc.page_iter().collect();
-        let pages: Vec<(u32, ObjectId)> = doc.get_pages().into_iter().collect();
-        (it, pages)
-    })
+/// isolated-worker side: `pages <trailer> <k> (<num> <gen> <obj>)*` -> `ok <n> <ids…> <num|NUM>`
+/// (`NUM` = get_pages is not page_iter numbered 1..n). Runs in the worker process so that a
+/// non-terminating enumeration is a `timeout` outcome instead of a hung check.
+pub fn worker_case(case: &str) -> String {
+    let toks: Vec<&str> = case.split(' ').filter(|t| !t.is_empty()).collect();
+    if toks.first() != Some(&"pages") { return "bad-case".into(); }
+    let mut it = toks[1..].iter();
+    let Some(Object::Dictionary(tr)) = parse_obj(&mut it) else { return "bad-case".into() };
+    let Some(k) = it.next().and_then(|t| t.parse::<usize>().ok()) else { return "bad-case".into() };
+    let mut doc = Document::with_version("1.5");
+    doc.trailer = tr;
+    for _ in 0..k {
+        let (Some(n), Some(g)) = (it.next().and_then(|t| t.parse::<u32>().ok()), it.next().and_then(|t| t.parse::<u16>().ok())) else { return "bad-case".into() };
+        let Some(o) = parse_obj(&mut it) else { return "bad-case".into() };
+        doc.objects.insert((n, g), o);
+    }
+    let ids: Vec<ObjectId> = doc.page_iter().collect();
+    let pages: Vec<(u32, ObjectId)> = doc.get_pages().into_iter().collect();
+    let numbered: Vec<(u32, ObjectId)> = ids.iter().enumerate().map(|(i, id)| ((i + 1) as u32, *id)).collect();
+    format!("{} {}", reply(&ids), if pages == numbered { "num" } else { "NUM" })
+}
+
+/// run one request in the isolated worker; Err = panic / timeout / abort description
+fn run_real(doc: &Document) -> Result<(Vec<ObjectId>, bool), (String, String)> {
+    let req = request(doc);
+    let out = crate::iso::run_isolated("C12", &[req], 5000, 2048).pop().unwrap_or_default();
+    if let Some(rest) = out.strip_prefix("ok ") {
+        let t: Vec<&str> = rest.split(' ').collect();
+        let n: usize = t[0].parse().unwrap_or(0);
+        let ids: Vec<ObjectId> = t[1..1 + n].iter().filter_map(|x| { let (a, b) = x.split_once('_')?; Some((a.parse().ok()?, b.parse().ok()?)) }).collect();
+        Ok((ids, t.last() == Some(&"num")))
+    } else if out.starts_with("panic") { let site = out.split(' ').nth(1).unwrap_or("?").to_string(); Err((site, out)) }
+    else { Err((out.split(' ').next().unwrap_or("?").to_string(), out)) }
 }
 
 pub fn run(c: &mut Ctx) {
@@ -224,20 +251,18 @@ fn check_valid(c: &mut Ctx, r: &mut Rng, t: &T, stream: &str) {
     c.count_n("valid.leaves", leaves.len() as u64);
     if height(t) > 100 { c.count("valid.height_gt_100"); }
     match run_real(&doc) {
-        Ok((it, pages)) => {
+        Ok((it, num_ok)) => {
             c.corr(req.clone(), reply(&it));
             if it != leaves {
                 c.oracle_fail("dfs-order", "page_iter differs from the depth-first leaves of the page tree",
                     json!({"request": req, "expected": reply(&leaves), "actual": reply(&it), "height": height(t)}));
             }
-            let numbered: Vec<(u32, ObjectId)> = leaves.iter().enumerate().map(|(i, id)| ((i + 1) as u32, *id)).collect();
-            if pages != numbered {
-                c.oracle_fail("numbering", "get_pages is not the leaves numbered 1..n",
-                    json!({"request": req, "expected": format!("{:?}", numbered), "actual": format!("{:?}", pages)}));
+            if !num_ok {
+                c.oracle_fail("numbering", "get_pages is not the enumeration numbered 1..n", json!({"request": req}));
             }
             c.sample(json!({"stream": stream, "height": height(t), "leaves": leaves.len(), "request": if req.len() < 400 { req } else { format!("{}…", &req[..400]) }}));
         }
-        Err((site, msg)) => c.oracle_fail(&format!("panic@{}", site), &msg, json!({"request": req})),
+        Err((site, msg)) => c.oracle_fail(&format!("{}{}", if msg.starts_with("panic") { "panic@" } else { "no-result:" }, site), &format!("page enumeration did not return: {}", msg.chars().take(120).collect::<String>()), json!({"request": req})),
     }
 }
 
@@ -246,7 +271,7 @@ fn check_any(c: &mut Ctx, doc: &Document, stream: &str) {
     c.nontrivial(&req);
     c.count(&format!("{}.cases", stream));
     match run_real(doc) {
-        Ok((it, pages)) => {
+        Ok((it, num_ok)) => {
             c.corr(req.clone(), reply(&it));
             if it.len() > doc.objects.len() {
                 c.oracle_fail("too-many", "more ids yielded than objects exist", json!({"request": req}));
@@ -258,12 +283,11 @@ fn check_any(c: &mut Ctx, doc: &Document, stream: &str) {
                     break;
                 }
             }
-            let numbered: Vec<(u32, ObjectId)> = it.iter().enumerate().map(|(i, id)| ((i + 1) as u32, *id)).collect();
-            if pages != numbered {
+            if !num_ok {
                 c.oracle_fail("numbering", "get_pages is not page_iter numbered 1..n", json!({"request": req}));
             }
             if !it.is_empty() { c.count(&format!("{}.yielded_some", stream)); }
         }
-        Err((site, msg)) => c.oracle_fail(&format!("panic@{}", site), &msg, json!({"request": req})),
+        Err((site, msg)) => c.oracle_fail(&format!("{}{}", if msg.starts_with("panic") { "panic@" } else { "no-result:" }, site), &format!("page enumeration did not return: {}", msg.chars().take(120).collect::<String>()), json!({"request": req})),
     }
 }
